@@ -255,5 +255,6 @@ def run(chk):
         "that exported procedures capture the library's frame (so redefinition in the importer cannot reach them) follows from C01's closure obligation; name-collision behaviour of whole importing programs and file-based loading are outside",
         "structural counterexamples are confirmed by native library probes before they are reported",
     ]
+    chk.run_probes("libraries", lib_probe, chk.ws.runner("dev"), len(LIB_PROBES))
     chk.step("eval_library_definition", spec_library_definition, chk, ND)
     chk.step("single instance", spec_single_instance, chk)
